@@ -235,8 +235,11 @@ func (c *FuncCtx) box(v Term) Term {
 	un := "unbox_" + sortTag(v.Sort)
 	c.sc.declFun(un, []Sort{SAny}, v.Sort)
 	b := mk(SAny, name, v)
-	// injectivity instance
-	c.sc.assume(eq(mk(v.Sort, un, b), v))
+	// injectivity instance (not for a term under a binder: the assumption would mention the bound
+	// variable outside its scope; congruence of box_ is all a quantified clause gets)
+	if !strings.Contains(v.S, "q_") {
+		c.sc.assume(eq(mk(v.Sort, un, b), v))
+	}
 	return b
 }
 
